@@ -3,7 +3,33 @@ NOT_APPLICABLE = {}
 NOTES = "All checks: ./check <id> --tier quick|thorough (cwd /verif). Fix commits and known findings: known_findings.json, DESIGN.md section 8."
 _T = "Lean 4 proof over hand-written model + differential correspondence"
 _N = "Trusted: Lean kernel, axioms listed per theorem in the evidence, the hand-written model, the correspondence harness (bounded generator) and the driver's JSON/tokenizer glue, CPython, pycryptosat for oracles."
+_D = "Trusted: Lean kernel and the axioms listed per theorem; SPModel.Spec (reference semantics = my reading of the documentation, restricted to the regions DESIGN.md 3.2 names as defined); the bounded design generator + boundary corpus of harness/i12_oracle.py; the SAT back ends return models of what they are given; hand-written models are tied to /repo only by the listed correspondences. Known findings are replayed from known_findings.json."
+def _design(text, ref, extra=""):
+    return {"text": text, "design_ref": ref, "note": _D + (" " + extra if extra else ""), "technique": "Lean 4 executable reference semantics + proved component theorems + differential correspondence"}
 CHECKS = {
+    "C01": _design("Every sequence returned by IterateSATGen/CMSGen/UniGen for generated designs (boundary corpus + random; all block combinators) is judged by the Lean reference semantics Spec.valid. Proved in Lean for all inputs: the run-length encodings (AtMost/AtLeast/ExactlyKInARow, ExactlyK) mean what the constraints say (C01.lean), cardinality requests (C10), Tseitin (C11), adders (C12); the run-length compile model is tied to constraint.py by exact correspondence (I8k). The composition of all constraint classes into one soundness theorem is not proved (partial).", "7 (C01-C03), 3.2"),
+    "C02": _design("Exhausted IterateSATGen multiset = Spec.validSeqs (enumerated in Lean) on generated designs with <= 250 solutions. Proved: the iterate-and-block loop over any sound and complete solver returns distinct solutions and all of them when it stops early (C09.lean), request/Tseitin/run-length encodings exact (C10, C11, C01). Composition partial as for C01.", "7 (C01-C03)"),
+    "C03": _design("All models of build_cnf(block) are enumerated for generated designs; two models that agree on the trial variables must be identical. Proved: unique extension for every cardinality request (C10.assert_unique, combine_models), every Tseitin conversion (C11.tseitin_unique), every gate chain (C12.ext_exists_unique). The theorem assembling them over a whole backend request is not proved yet (partial).", "7 (C01-C03)"),
+    "C04": _design("Every sequence RandomGen returns for generated designs is judged by Spec.valid. Proved: the unranking functions RandomGen builds candidates from are bijections with exact counts (C13). RandomGen's assembly of a sequence from components is not modelled (oracle only).", "7 (C04-C07)"),
+    "C05": _design("The tree of all random choices of RandomGen's draw procedure is enumerated with a scripted randrange: distinct keys, equal path probabilities, count = candidate count; exhausted RandomGen = Spec.validSeqs without duplicates. Proved: C13 bijections. Draw procedure itself not modelled in Lean (oracle only); non-uniformity F15 is a known finding.", "7 (C04-C07)"),
+    "C06": _design("Exhausted RandomGen multiset = Spec.validSeqs; reported solution count = number of solutions for designs without rejection. Proved: C13 counts and bijections.", "7 (C04-C07)"),
+    "C07": _design("Exhausted IterateSATGen set = exhausted RandomGen set on generated designs, with no reference to Spec. Supported by the theorems of C01/C10/C11 (encoder side) and C13 (combinatoric side).", "7 (C04-C07)"),
+    "C08": _design("Every accepted generated design is run through IterateSATGen, RandomGen, CMSGen and UniGen (UniGen in a child process); any escaping exception is a failure. Proved no-error facts: cardinality builders total on non-empty lists (C10.assert_total), unranking functions total below their count (C13 *_range). Errors inside C extensions and resource limits are observed only.", "7 (C08)"),
+    "C09": _design("Request sizes 0, 1, available-1, available, available+5 on IterateSATGen, RandomGen, IterateGen: min(requested, available) returned, no solution twice (weights accounted for). Proved: iterate loop distinctness/exhaustiveness over any sound+complete solver (C09.lean), blocking clause excludes exactly one support assignment (C09.blocking_iff, C27.update_models).", "7 (C09)"),
+    "C14": _design("Lean theorems about the model of block.py's variable numbering: every applicable (trial, factor, level) has its own variable in 1..variables_per_sample, every such variable is one, decode inverts encode (all block shapes); tied to block.py by exact correspondence on generated designs (I7) plus an implementation oracle incl. Gen.decode on one-hot assignments.", "7 (C14)"),
+    "C15": _design("Derived factors with random tables: overlapping tables must be rejected at construction, uncovered windows must produce an error and no sequences, otherwise every returned sequence has the unique matching level on applicable trials (Spec). Corpus with explicit starts/strides/weighted dependencies.", "7 (C15)"),
+    "C16": _design("block.trials_per_sample() = trial count Spec.geo computes from the documented rules, and every returned sequence of every strategy has that many entries, on generated designs and the boundary corpus.", "7 (C16)"),
+    "C17": _design("sample_mismatch_experiment(s) == {} iff Spec.valid(s) on every valid sequence (Spec.validSeqs) and on perturbed ones. Proved: run-length semantics (C01.lean runs lemmas).", "7 (C17)"),
+    "C18": _design("Two blocks sharing factor and constraint objects, built in both orders, compared with fresh-object builds (exhausted sets). Known finding F4.", "7 (C18)"),
+    "C19": _design("Random call histories on one block object (all nine API functions, 0-2 continuous factors): block snapshot unchanged after every call, final synthesize_trials succeeds with the same columns and Spec-valid sequences.", "7 (C19)"),
+    "C20": {"text": "Lean theorems about the model of the conversions (cell (t,j) of tuples/dicts/CSV rows is the t-th value of column j; hidden names filtered), tied to main.py by exact correspondence on random experiment dicts (missing keys, ragged columns), plus an oracle on synthesized experiments of generated designs incl. weighted uncrossed factors.", "design_ref": "7 (C20)", "note": _N, "technique": _T},
+    "C21": {"text": "Lean theorems: the counting loop of tabulate_experiments equals filter/length and the table lists every combination once in product order; tied to main.py by correspondence on the parsed printed table; percentages compared numerically.", "design_ref": "7 (C21)", "note": _N + " Float formatting is not modelled.", "technique": _T},
+    "C22": _design("Designs with continuous factors with logging CustomDistributions: one value per trial, ContinuousConstraint holds, dependents computed from the same trial, window values with NaN where undefined/skipped, discrete part Spec-valid. Proved: the window function (C22.lean windowVal_*).", "7 (C22)", "Floating point and distribution shapes are not covered."),
+    "C23": _design("Weighted crossed levels: exhausted sets judged by Spec (multiplicities = product of weights, prints distinct); weighted uncrossed factor vs its copy-expanded twin: equal multisets.", "7 (C23)"),
+    "C24": _design("Both sides of each documented combinator equivalence built from fresh objects and exhausted; multisets must be equal. Known findings F13, F28.", "7 (C24)"),
+    "C25": _design("Nest(outer, inner) of generated leaves: length product, each group valid for the inner block alone (Spec), group sequence valid for the outer block alone, solution count = outer x inner^outerTrials.", "7 (C25, C26)"),
+    "C26": _design("Repeat with the same constraint given to the block vs to the Repeat: every repetition valid for the block alone / whole sequence satisfies the constraint; solution counts solutions(b)^r vs Spec.validSeqs.", "7 (C25, C26)"),
+    "C29": _design("SMGen in a child process on generated designs: documented refusal (Exception '...not supported...') or Spec-valid sequences. Timer interleavings of the search are not exhibited by any model. Known finding F6.", "7 (C29)"),
     "C11": {
         "text": "Lean 4 theorems about the model of logic.py: Tseitin (models on the original variables, unique extension, fresh range, cnf_to_json shape), naive (equivalent, no new variables) and switching (partial correctness of the fuelled model) for all formulas; tied to logic.py by tree-exact correspondence of the three conversions and cnf_to_json on exhaustive small + random formulas, plus a truth-table oracle on the implementation.",
         "design_ref": "7 (C11)", "note": _N + " str() of a namedtuple of ints is an injective cache key; list.sort is stable. Switching: termination not proved (fuel).",
